@@ -26,6 +26,18 @@ CHECKS = {
    note="Trusted: CBMC+MiniSat, extractor rules, FILE_* stubs for ifstream, EV_FMT/EV_ARG abstraction of boost::format rendering, lookupSymbol replaced by its contract. "
         "Assumes the header's image length fits memory and is present in the file. Native stage builds the real Processor over dirty/clean storage.",
    technique="CBMC contracts: self-composition harness + dfcc assigns enforcement on mechanically extracted C; native confirmation on real hexsim::Processor"),
+ "C03": dict(cat="proof", design="DESIGN.md §4 C03",
+   text="Contract on one hextb clock (rising-edge eval + falling-edge eval) of the C that Verilator generates from verilog/*.sv, converted to C each run: from every "
+        "settled state with the inductive invariant (oreg_q&0xF)==0 and in-range addresses, registers, stored word and memory frame (ghost index over all 2^19 words) "
+        "equal isa_step; nothing changes on the falling edge; syscall request raised exactly for SVC with o_syscall==areg&3; post-state settled and invariant "
+        "re-established. Verilator's convergence loops unwound 4 with unwinding assertions.",
+   note="Trusted: CBMC+MiniSat, Verilator 5.006 as the RTL semantics, vl2c rule list + VL_* helper prelude, isa_step. Base case (reset) in C13; whole runs by induction (paper).",
+   technique="CBMC contract harness on Verilator-generated code converted to C vs executable ISA spec; replay on natively Verilated model"),
+ "C16": dict(cat="proof", design="DESIGN.md §4 C16",
+   text="Product harness over the Verilator-generated C of processor.sv and of each shipped processor.v: equal registers and arbitrary equal previous inputs, arbitrary new "
+        "inputs (all clock/reset edge combinations, all i_f_data/i_d_data): outputs equal after settling, registers+outputs+edge history equal after the evaluation. No preconditions.",
+   note="Trusted: CBMC+MiniSat, Verilator 5.006, vl2c rules. Sequence equivalence by induction over evaluations (harness state arbitrary and re-established).",
+   technique="CBMC product (relational) harness on Verilator-generated code converted to C; replay on three natively Verilated models"),
 }
 NA = {
  "C01": "compiler correctness over all X programs: needs an X semantics and a simulation proof over 3200 lines of STL C++ that CBMC cannot parse; no per-function contract expresses it (DESIGN §5)",
@@ -36,13 +48,11 @@ NA = {
  "C14": "process-level exit status / files on disk of four main()s, hinging on C++ exception propagation and overload resolution; outside CBMC's reach (DESIGN §5)",
 }
 PENDING = {
- "C03": "claimed by design (DESIGN §4); check not built yet in this round",
  "C05": "claimed by design (DESIGN §4); check not built yet in this round",
  "C06": "claimed by design (DESIGN §4); check not built yet in this round",
  "C07": "claimed by design (DESIGN §4); check not built yet in this round",
  "C13": "claimed by design (DESIGN §4); check not built yet in this round",
  "C15": "claimed by design (DESIGN §4); check not built yet in this round",
- "C16": "claimed by design (DESIGN §4); check not built yet in this round",
  "C17": "claimed by design (DESIGN §4); check not built yet in this round",
 }
 def main():
